@@ -798,6 +798,17 @@ func Large(format string, r *prng.R, size int) Doc {
 			fmt.Fprintf(&b, "Dialogue: Marked=0,0:%02d:%02d.00,0:%02d:%02d.90,Default,,0,0,0,,%s%s", t/60%60, t%60, t/60%60, t%60, asciiSentence(r, 1, 12), e.s())
 			t++
 		}
+	case "stl":
+		var blocks [][]byte
+		for t := 0; 1024+128*len(blocks) < size; t += 2 {
+			n++
+			text := append([]byte{0x0b, 0x0b}, asciiSentence(r, 1, 6)...)
+			if len(text) > 100 {
+				text = text[:100]
+			}
+			blocks = append(blocks, TTI(n-1, 0xff, [4]byte{byte(t / 3600), byte(t / 60 % 60), byte(t % 60), 0}, [4]byte{byte((t + 1) / 3600), byte((t + 1) / 60 % 60), byte((t + 1) % 60), 12}, 20, 2, text))
+		}
+		return Doc{Name: fmt.Sprintf("large-stl-%d", size), Format: format, Data: BuildSTL(25, '1', "large", "00000000", blocks), Cues: n, Gen: true}
 	default:
 		panic("corpus: Large: unsupported format " + format)
 	}
